@@ -81,7 +81,16 @@ TENSORS = [
     ("float/default-location", lambda: _t(TP.FLOAT, [1], float_data=[2.0], data_location=TP.DEFAULT)),
     ("float/external", lambda: _t(TP.FLOAT, [2, 3], external=[("location", "weights.bin"), ("offset", "4096"), ("length", "24")])),
     ("uint8/external-location-only", lambda: _t(TP.UINT8, [5], external=[("location", "sub/w.data")])),
+    # STRING tensors: TensorProto.string_data is 'repeated bytes' - arbitrary byte strings, not NUL terminated text
+    ("string/trailing-nul", lambda: _t(TP.STRING, [3], string_data=[b"key\x00", b"\x00", b"pad\x00\x00\x00"])),
+    ("string/nul-positions-rank2", lambda: _t(TP.STRING, [2, 3], string_data=[b"a\x00b", b"\x00lead", b"", b"\x00\x00", b"x", b"a much longer element than the others\x00"])),
+    ("string/non-utf8", lambda: _t(TP.STRING, [4], string_data=[b"\xff\xfe", b"ok", b"\xc3\x28\x00", b"\x80"])),
+    ("string/scalar-trailing-nul", lambda: _t(TP.STRING, [], string_data=[b"scalar\x00"])),
+    ("string/empty-rank1", lambda: _t(TP.STRING, [0])),
+    ("string/empty-rank2", lambda: _t(TP.STRING, [0, 2])),
+    ("string/empty-elements", lambda: _t(TP.STRING, [2, 1], string_data=[b"", b""])),
 ]
+STRING_TENSOR_LEAVES = [i for i, (n, _) in enumerate(TENSORS) if n.startswith("string/")]
 
 # (constructor kind, elem / inner, denotation)
 TYPES = [
@@ -242,6 +251,10 @@ def _named_tensor(i, name, meta=None, doc=None):
     return t
 
 
+def _ti(name: str) -> int:
+    return next(i for i, (n, _) in enumerate(TENSORS) if n == name)
+
+
 def _attr_lists():
     AP = onnx.AttributeProto
     return [
@@ -256,6 +269,17 @@ def _attr_lists():
         ("none", lambda: []),
         ("nan-and-bits", lambda: [_attr("nan", AP.FLOAT, float("nan")), _attr("tiny", AP.FLOAT, 1e-45), _attr("big", AP.INT, 2**63 - 1),
                                   _attr("neg", AP.INT, -(2**63))]),
+        ("string-tensors", lambda: [_attr("keys", AP.TENSOR, _named_tensor(_ti("string/trailing-nul"), "keys", doc="padded keys")),
+                                    _attr("tables", AP.TENSORS, [_named_tensor(_ti("string/nul-positions-rank2"), "t2"), _named_tensor(_ti("string/non-utf8"), "raw"),
+                                                                 _named_tensor(_ti("string/scalar-trailing-nul"), ""), _named_tensor(_ti("string/empty-rank2"), "e"),
+                                                                 _named_tensor(_ti("string/empty-elements"), "ee", meta=[("m", "1")])])]),
+        ("string-tensors-2", lambda: [_attr("t", AP.TENSOR, _named_tensor(_ti("string/scalar-trailing-nul"), "s")),
+                                      _attr("e", AP.TENSOR, _named_tensor(_ti("string/empty-rank1"), "e1")),
+                                      _attr("ts", AP.TENSORS, [_named_tensor(_ti("string/trailing-nul"), "k"), _named_tensor(_ti("string/string_data"), "plain")])]),
+        ("nul-bytes-in-strings", lambda: [_attr("key", AP.STRING, b"key\x00"), _attr("nul", AP.STRING, b"\x00"), _attr("mid", AP.STRING, b"a\x00b"),
+                                          _attr("lead", AP.STRING, b"\x00lead"), _attr("raw", AP.STRING, b"\xff\xfe\x00", doc="not UTF-8: kept as bytes"),
+                                          _attr("many", AP.STRINGS, [b"key\x00", b"\x00", b"", b"a\x00b", b"\x00lead", b"pad\x00\x00", "\u00fc\x00".encode(),
+                                                                       b"an element much longer than the others"])]),
         ("low-bit-tensors", lambda: [_attr("w4", AP.TENSOR, _named_tensor(15, "w4")), _attr("f8", AP.TENSOR, _named_tensor(17, "f8", meta=[("q", "1")])),
                                      _attr("s", AP.TENSOR, _named_tensor(6, "strs", doc="strings"))]),
     ]
@@ -284,6 +308,12 @@ NODE_DEVS = [
     [("c0", [("out", [-1], [(0, [0, 1]), (1, [2, 3])], [(1, [("N", 2), (None, 1)]), (0, [])])], None), ("c1", [], 0)],
     [("dangling_cfg", [("in", [], [], [])], None)],
     [("c1", [("out", [3], [], [(2, [(8, 4), (6, 2)])]), ("in", [0], [(5, [])], [])], 7)],
+    # one node carrying BOTH a configuration declared in model.configuration (c0 is declared by every MODEL_CFGS leaf)
+    # and configurations that are not declared (dangling), in both orders, with / without sharding specs and stage
+    [("dangling_first", [("in", [0, 1], [], [(0, [(4, 2)])])], 2), ("c0", [], None)],
+    [("c0", [("out", [1], [(0, [0])], [(0, [("N", 2)])])], None), ("dangling_last", [], None)],
+    [("dangling_a", [], None), ("c0", [("in", [0], [], [])], 3), ("dangling_b", [("out", [2, 3], [], [(1, [(None, 2)])])], 0)],
+    [("c0", [], 0), ("dangling_only_stage", [], 5), ("c0", [("in", [], [], [])], None)],
 ]
 
 CATALOGUE_SIZES = dict(
